@@ -434,3 +434,13 @@ Print Assumptions C09_skip_holds_nothing.
 Theorem C09_stream : C09_stream_statement.
 Proof. intros S i hs _ HS Hok. apply stream_okb; assumption. Qed.
 Print Assumptions C09_stream.
+
+(* non-vacuity: the history of C09_stream_events_nonvacuous (KeepFrom, data before the SYN, a closing
+   flush, a re-opened connection, across the wrap) meets the hypotheses; the oracle accepts its run on
+   the code as it stands and rejects the run of the unchanged code *)
+Example C09_stream_nonvacuous :
+  let hs := [HKeep [(1, 1)]; HData 4 2 false false 2; HData 2 2 false false 3; HSyn 2 4; HData 6 2 false false 5;
+             HFlush 100 100; HData 8 2 true false 200; HFlushAll] in
+  zlen w_S < HALFW - 1 /\ forallb (hop_okb w_S) hs = true /\
+  hist_okb fullv w_S 4294967293 hs = true /\ hist_okb origv w_S 4294967293 hs = false.
+Proof. vm_compute. repeat split; reflexivity. Qed.
